@@ -648,7 +648,20 @@ func (o *operation) handle() {
 		return
 	}
 	rw := &responseWriter{op: o, delegate: o.writer, flusher: flusher}
-	defer rw.close()
+	handlerPanicked := false
+	defer func() {
+		if !handlerPanicked {
+			rw.close()
+			return
+		}
+		// What the handler has written is not a complete response, so it must not be
+		// completed as if it were one: nothing more is sent, and the panic takes its
+		// course (net/http aborts the connection).
+		rw.mu.Lock()
+		rw.endWritten = true
+		rw.err = context.Canceled
+		rw.mu.Unlock()
+	}()
 	o.writer = rw
 
 	// And finally we can define the transformed request bodies.
@@ -673,7 +686,9 @@ func (o *operation) handle() {
 		}
 	}
 
+	handlerPanicked = true // (unless it returns)
 	o.methodConf.handler.ServeHTTP(o.writer, o.request)
+	handlerPanicked = false
 }
 
 func (o *operation) resolveMethod(transcoder *Transcoder) error {
